@@ -127,3 +127,17 @@ Theorem wf_facts :
 Proof.
   split; [exact issued_wf_v2|]. split; [exact decoded_wf_v2|]. split; [exact issued_fields_v1|exact decoded_fields_v1].
 Qed.
+
+(* the verdict on a certificate is the same after any history of verifications on the pool *)
+Lemma verify_history_snoc (verdict : anycert -> bool) : forall h seen a,
+  verify_history verdict seen (h ++ [a]) = verify_history verdict seen h ++ [verdict a].
+Proof.
+  induction h as [|x h IH]; intros seen a; [reflexivity|]. cbn [app verify_history]. now rewrite IH.
+Qed.
+
+Theorem history_independent (verdict : anycert -> bool) : forall h seen a,
+  last (verify_history verdict seen (h ++ [a])) false = verdict a /\
+  verify_history verdict seen (h ++ [a]) = verify_history verdict seen h ++ [verdict a].
+Proof.
+  intros h seen a. rewrite verify_history_snoc. split; [apply last_last|reflexivity].
+Qed.
